@@ -252,11 +252,12 @@ class Server:
           in the servlet will eventually see the sentinel and exit.
         - Wait for the servlet and all helper threads to exit.
         """
-        self.servlet.stop()
-        self._gather_thread.join()
         if self._onboard_thread is not None:
+            # Flush pending inputs first so that the stop sentinel can not overtake them.
             self._input_buffer.put(None)
             self._onboard_thread.join()
+        self.servlet.stop()
+        self._gather_thread.join()
 
     def call(self, x, /, *, timeout: int | float = 60, backpressure: bool = True):
         """
@@ -525,6 +526,10 @@ class AsyncServer:
         return self
 
     async def __aexit__(self, *args):
+        if self._onboard_thread is not None:
+            # Flush pending inputs first so that the stop sentinel can not overtake them.
+            self._input_buffer.put(None)
+            self._onboard_thread.join()
         self.servlet.stop()
         self._gather_thread.join()
 
@@ -542,10 +547,6 @@ class AsyncServer:
                     await asyncio.wait_for(pipenotfull.wait(), 0.01)
                 except asyncio.TimeoutError:
                     pass
-
-        if self._onboard_thread is not None:
-            self._input_buffer.put(None)
-            self._onboard_thread.join()
 
     async def call(self, x, /, *, timeout: int | float = 60, backpressure: bool = True):
         """
